@@ -1,10 +1,15 @@
 package main
 
 // C02 Feature sequences follow INSDC location semantics for every location.
+// Rules are stated over the "family" of a function (itself plus the same-package helpers it calls)
+// and over def-use terms that look through helpers, so extracting or inlining a helper does not
+// change what is found. An obligation is a VIOLATION only on positive evidence (a recognised
+// construct with a wrong detail); an unrecognised shape is UNDECIDED.
 
 import (
 	"fmt"
 	"regexp"
+	"sort"
 	"strings"
 
 	"golang.org/x/tools/go/ssa"
@@ -12,348 +17,834 @@ import (
 
 func init() { register("C02", ruleC02) }
 
+// family: f and the same-package functions reachable from it (with bodies), sorted.
+func family(f *ssa.Function) []*ssa.Function {
+	var out []*ssa.Function
+	for _, g := range funcsSorted(reachable(f)) {
+		if g.Blocks != nil && inModule(g) && pkgOf(g) == pkgOf(f) {
+			out = append(out, g)
+		}
+	}
+	return out
+}
+
+func pkgOf(f *ssa.Function) *ssa.Package {
+	for f != nil && f.Pkg == nil {
+		f = f.Parent()
+	}
+	if f == nil {
+		return nil
+	}
+	return f.Pkg
+}
+
+// stripTable: which characters does the marker-stripping operation inside t delete? Understands a
+// regexp replacement by "" with a constant pattern and a strings.Replacer built from constants.
+func stripTable(t *Term) (deleted string, found bool) {
+	t.walk(func(x *Term) {
+		if found {
+			return
+		}
+		if x.isCall("(*regexp.Regexp).ReplaceAllString") && len(x.Args) == 3 && x.Args[2].isConst(`""`) {
+			if pat, ok := regexpPattern(x.Args[0]); ok {
+				if re, err := regexp.Compile(pat); err == nil {
+					for ch := byte(0x20); ch < 0x7f; ch++ {
+						if re.MatchString(string(ch)) {
+							deleted += string(ch)
+						}
+					}
+					found = true
+				}
+			}
+		}
+		if x.isCall("(*strings.Replacer).Replace") && len(x.Args) == 2 {
+			r := x.Args[0]
+			if r.Op == "global" {
+				if it := globalInitTerm(r); it != nil {
+					r = it
+				}
+			}
+			if r.isCall("strings.NewReplacer") && len(r.Args) == 1 && r.Args[0].Op == "slice" {
+				pairs := map[int]string{}
+				okAll := true
+				inner := r.Args[0].Args[0]
+				ps := []*Term{inner}
+				if inner.Op == "anyof" {
+					ps = inner.Args
+				}
+				for _, p := range ps {
+					var i int
+					if p.Op != "partial" {
+						okAll = false
+						continue
+					}
+					if _, err := sscanIndex(p.Name, &i); err != nil {
+						okAll = false
+						continue
+					}
+					s, ok := p.Args[0].constStr()
+					if !ok {
+						okAll = false
+					}
+					pairs[i] = s
+				}
+				if okAll {
+					for i := 0; i+1 < len(pairs); i += 2 {
+						if pairs[i+1] == "" {
+							deleted += pairs[i]
+						} else {
+							deleted += "?" // rewrites rather than deletes
+						}
+					}
+					b := []byte(deleted)
+					sort.Slice(b, func(i, j int) bool { return b[i] < b[j] })
+					deleted = string(b)
+					found = true
+				}
+			}
+		}
+		if x.isCall("strings.ReplaceAll") && len(x.Args) == 3 && x.Args[2].isConst(`""`) {
+			if s, ok := x.Args[1].constStr(); ok {
+				deleted += s
+				found = true
+			}
+		}
+		if (x.isCall("strings.Trim") || x.isCall("strings.TrimLeft") || x.isCall("strings.TrimRight")) && len(x.Args) == 2 {
+			if s, ok := x.Args[1].constStr(); ok {
+				deleted += s
+				found = true
+			}
+		}
+	})
+	if found {
+		b := []byte(deleted)
+		sort.Slice(b, func(i, j int) bool { return b[i] < b[j] })
+		// dedupe
+		var u []byte
+		for i, ch := range b {
+			if i == 0 || ch != b[i-1] {
+				u = append(u, ch)
+			}
+		}
+		deleted = string(u)
+	}
+	return
+}
+
 func ruleC02(c *Ctx) {
 	c.Decided = []string{
-		"COORD: parser span literal Start=atoi-1, End=atoi; single-base literal Start=atoi-1, End=atoi; printer Itoa(Start+1), Itoa(End); evaluator slices parent[Start:End] with no offset",
-		"TABLE: partial markers are removed before Atoi by a pattern matching exactly '<' and '>'; the two flags are set from Contains on those same constants (markers change flags, never bases)",
-		"TERM-EVAL: leaf => parent slice; inner => concatenation of recursive results in range order over SubLocations; Complement => ReverseComplement applied to the concatenation (after, not per operand); recursion passes the sub-location and the same feature; GetSequence starts at feature.SequenceLocation",
-		"TERM-PRINT: Complement => complement(+rec+) with only the Complement flag cleared for the recursive call; Join => join(+rec,...+) over all sub-locations; leaf => a..b; keyword tokens equal the parser's; '<' immediately before the start coordinate, '>' immediately before the end coordinate",
-		"ARITY: in the parser's join case every operand is appended inside a loop over the operand list (operand count not bounded by a constant)",
-		"prerequisite C11 (ReverseComplement = reversal∘complement) re-run",
+		"COORD: every Location literal the parser builds from text has Start = atoi(first number) - 1 and End = atoi(second number) (span) or Start = n-1, End = n (single base); every coordinate the printer passes to Itoa is Start+1 or End; every slice the evaluator takes of the parent is [Start:End] of one location",
+		"TABLE: the partial markers removed before Atoi are exactly '<' and '>'; FivePrimePartial / ThreePrimePartial are set under a test for '<' / '>' (not crossed)",
+		"TERM-EVAL: recursive evaluation ranges over all SubLocations in order with the same feature; ReverseComplement is applied to the whole concatenation exactly on the Complement branch; GetSequence starts at feature.SequenceLocation; C11's ReverseComplement shape",
+		"TERM-PRINT: complement form = complement( + print(location with only Complement cleared) + ); join form lists every sub-location in order separated by ','; keyword tokens equal the parser's; '<' immediately before the start coordinate; '>' immediately before the end coordinate",
+		"ARITY: in the parser's join case operands are appended in a loop over the operand list",
 	}
-	c.Undec = []string{"that the recursive-descent parser accepts every expression of the grammar beyond the arity condition", "Atoi failures on malformed numbers"}
+	c.Undec = []string{"that the recursive-descent parser accepts every expression of the grammar beyond the arity condition", "Atoi failures on malformed numbers", "evaluators that push complement down to the leaves (a different but possibly correct design) are reported as undecided"}
 	c.Trusted = []string{"INSDC feature table §3.4 (1-based inclusive coordinates; <n..m, n..>m)", "strconv.Atoi/Itoa, regexp"}
 	c.floor("COORD", 4)
 	c.floor("TABLE", 2)
-	c.floor("TERM-EVAL", 4)
-	c.floor("TERM-PRINT", 5)
+	c.floor("TERM-EVAL", 3)
+	c.floor("TERM-PRINT", 4)
 	c.floor("ARITY", 1)
 	w := c.W
 	pl := w.fn("io/genbank", "parseLocation")
 	bl := w.fn("io/genbank", "BuildLocationString")
 	ev := w.fn("", "getFeatureSequence")
-	if pl == nil || bl == nil || ev == nil {
-		c.missing("COORD", "parseLocation/BuildLocationString/getFeatureSequence", "location parser, printer and evaluator")
+	gsq := w.method("", "Feature", "GetSequence")
+	if bl == nil || gsq == nil {
+		c.missing("COORD", "BuildLocationString/GetSequence", "exported genbank.BuildLocationString and Feature.GetSequence")
 		return
-	}
-	for _, f := range []*ssa.Function{pl, bl, ev} {
-		c.useFn(f)
 	}
 	// ---------------- parser
-	tb := newTB(pl)
-	tb.buildStores()
-	var loc *ssa.Alloc
-	for _, r := range returnsOf(pl) {
-		if ld, ok := r.Results[0].(*ssa.UnOp); ok {
-			loc, _ = ld.X.(*ssa.Alloc)
-		}
-	}
-	if loc == nil {
-		c.bad("COORD", "parser result", pl.Pos(), "parseLocation does not build its result in one local Location (unrecognised shape)")
-		return
-	}
-	hasParen := `call[strings.ContainsAny](param[0], const["("])`
-	hasDot := `call[strings.ContainsAny](param[0], const["."])`
-	type lit struct{ start, end *Term }
-	var span, single *lit
-	var stripPat string
-	for _, st := range tb.stores[loc] {
-		_, p, _ := rootAlloc(st.Addr)
-		if len(p) != 1 || (p[0] != ".Start" && p[0] != ".End") {
-			continue
-		}
-		pc := pathCond(tb, pl.Blocks[0], st.Block())
-		if !pc.implies(hasParen, true) {
-			continue
-		}
-		var l **lit
-		switch {
-		case pc.implies(hasDot, true):
-			l = &single
-		case pc.implies(hasDot, false):
-			l = &span
-		default:
-			continue
-		}
-		if *l == nil {
-			*l = &lit{}
-		}
-		if p[0] == ".Start" {
-			(*l).start = tb.T(st.Val)
-		} else {
-			(*l).end = tb.T(st.Val)
-		}
-	}
-	atoiOf := func(t *Term) (*Term, int64, bool) {
-		b, k := t.linear()
-		if b != nil && b.Op == "extract" && b.Name == "0" && b.Args[0].isCall("strconv.Atoi") {
-			return b.Args[0].Args[0], k, true
-		}
-		return nil, 0, false
-	}
-	if span == nil || span.start == nil || span.end == nil {
-		c.bad("COORD", "parser:span n..m", pl.Pos(), "no Start/End stores in the 'n..m' case (unrecognised shape)")
+	if pl == nil {
+		c.missingHelper("COORD", "parser", "genbank.parseLocation")
 	} else {
-		sa, sk, ok1 := atoiOf(span.start)
-		ea, ek, ok2 := atoiOf(span.end)
-		good := ok1 && ok2 && sk == -1 && ek == 0
-		strip := func(t *Term, k string) bool {
-			if t.isCall("(*regexp.Regexp).ReplaceAllString") && t.Args[2].isConst(`""`) {
-				if p, ok := regexpPattern(t.Args[0]); ok {
-					stripPat = p
-				}
-				return t.Args[1].String() == `index(call[strings.Split](param[0], const[".."]), const[`+k+`])`
-			}
-			return false
-		}
-		good = good && strip(sa, "0") && strip(ea, "1")
-		c.check(good, "COORD", "parser:span n..m -> Start=n-1, End=m", pl.Pos(), "0-based half-open from 1-based inclusive, markers stripped before Atoi", fmt.Sprintf("span literal is {Start: %s, End: %s}; want {atoi(first)-1, atoi(second)} of the '..' split", short(span.start.String()), short(span.end.String())))
+		checkLocationParser(c, pl)
 	}
-	if single == nil || single.start == nil || single.end == nil {
-		c.bad("COORD", "parser:single base n", pl.Pos(), "no Start/End stores in the single-base case (unrecognised shape)")
+	// ---------------- evaluator: the family reachable from GetSequence in package poly
+	if ev == nil {
+		// find by role: what GetSequence calls
+		for _, g := range family(gsq) {
+			if g != gsq {
+				ev = g
+				break
+			}
+		}
+	}
+	if ev == nil {
+		c.missingHelper("TERM-EVAL", "evaluator", "the recursive evaluator behind Feature.GetSequence")
 	} else {
-		sa, sk, ok1 := atoiOf(single.start)
-		ea, ek, ok2 := atoiOf(single.end)
-		good := ok1 && ok2 && sk == -1 && ek == 0 && sa.String() == ea.String()
-		c.check(good, "COORD", "parser:single base n -> Start=n-1, End=n", pl.Pos(), "a bare n denotes exactly base n", fmt.Sprintf("single-base literal is {Start: %s, End: %s}: with Start = End = n the feature sequence parent[n:n] is empty; want {n-1, n}", short(single.start.String()), short(single.end.String())))
+		checkLocationEvaluator(c, gsq, ev)
 	}
-	// TABLE: partial markers
-	if stripPat != "" {
-		re, err := regexp.Compile(stripPat)
-		var hit []byte
-		if err == nil {
-			for ch := byte(0x20); ch < 0x7f; ch++ {
-				if re.MatchString(string(ch)) {
-					hit = append(hit, ch)
-				}
-			}
-		}
-		c.check(err == nil && string(hit) == "<>", "TABLE", "marker pattern matches exactly < and >", pl.Pos(), "pattern "+stripPat, fmt.Sprintf("the pattern %q removed before Atoi matches %q; want exactly \"<>\"", stripPat, string(hit)))
-	} else {
-		c.bad("TABLE", "marker pattern matches exactly < and >", pl.Pos(), "no constant pattern strips the partial markers before Atoi")
-	}
-	flagOK := map[string]bool{}
-	for _, st := range tb.stores[loc] {
-		_, p, _ := rootAlloc(st.Addr)
-		if len(p) != 1 {
-			continue
-		}
-		mark := map[string]string{".FivePrimePartial": "<", ".ThreePrimePartial": ">"}[p[0]]
-		if mark == "" {
-			continue
-		}
-		pc := pathCond(tb, pl.Blocks[0], st.Block())
-		flagOK[p[0]] = tb.T(st.Val).isConst("true") && pc.implies(`call[strings.Contains](param[0], const["`+mark+`"])`, false)
-	}
-	c.check(flagOK[".FivePrimePartial"] && flagOK[".ThreePrimePartial"], "TABLE", "flags from Contains(<) / Contains(>)", pl.Pos(), "FivePrimePartial iff the text contains '<', ThreePrimePartial iff it contains '>'", fmt.Sprintf("flag stores guarded correctly: %v", flagOK))
-	// ARITY + keyword tokens
-	var cmdTerm string
-	parserKW := map[string]bool{}
-	eachInstr(pl, func(i ssa.Instruction) {
-		if ifi, ok := i.(*ssa.If); ok {
-			t := tb.T(ifi.Cond)
-			if t.isBin("==") {
-				for k := 0; k < 2; k++ {
-					if s, ok := t.Args[k].constStr(); ok && (s == "join" || s == "complement") {
-						parserKW[s] = true
-						cmdTerm = t.Args[1-k].String()
-					}
-				}
-			}
-		}
-	})
-	joinAtom := `binop[==](const["join"], ` + cmdTerm + `)`
-	nSites := 0
-	for _, st := range tb.stores[loc] {
-		_, p, _ := rootAlloc(st.Addr)
-		if len(p) != 1 || p[0] != ".SubLocations" {
-			continue
-		}
-		pc := pathCond(tb, pl.Blocks[0], st.Block())
-		if !pc.implies(joinAtom, false) {
-			continue
-		}
-		nSites++
-		kind := "flat operand list"
-		if pc.implies(`call[strings.ContainsAny](slice(param[0], binop[+](call[strings.Index](param[0], const["("]), const[1]), call[strings.LastIndex](param[0], const[")"])), const["("])`, false) {
-			kind = "parenthesised operands"
-		}
-		c.check(inLoop(st.Block()), "ARITY", "join("+kind+")", st.Pos(), "operands are appended in a loop over the operand list", "operands are appended outside any loop: this branch builds a fixed number of operands (two), found by the first '(' only; join(1..5,complement(7..10)) and any three-operand parenthesised join are mis-parsed or panic")
-	}
-	if nSites == 0 {
-		c.bad("ARITY", "join case", pl.Pos(), "no SubLocations built in the join case (unrecognised shape)")
-	}
-	// ---------------- evaluator
-	etb := newTB(ev)
-	parent := "field[Sequence](deref(field[ParentSequence](param[0])))"
-	rt, _, okR := singleReturnTerm(ev, 0)
-	if !okR {
-		c.bad("TERM-EVAL", "single return", ev.Pos(), "getFeatureSequence has several returns: special cases are not analysed (every location must go through slice/concatenate/complement)")
-	} else {
-		leaves := phiLeaves(rt)
-		var bufS string
-		okPhi := len(leaves) == 2
-		for _, l := range leaves {
-			if l.isCall("(*bytes.Buffer).String") {
-				bufS = l.String()
-			}
-		}
-		okPhi = okPhi && bufS != ""
-		if okPhi {
-			for _, l := range leaves {
-				if l.String() != bufS && l.String() != "call[poly/transform.ReverseComplement]("+bufS+")" {
-					okPhi = false
-				}
-			}
-		}
-		// RC edge exactly under location.Complement
-		if ph, isPhi := returnsOf(ev)[0].Results[0].(*ssa.Phi); okPhi && isPhi {
-			for i, e := range ph.Edges {
-				pc := pathCond(etb, ev.Blocks[0], ph.Block().Preds[i])
-				isRC := strings.HasPrefix(etb.T(e).String(), "call[poly/transform.ReverseComplement](")
-				if isRC != pc.implies("field[Complement](param[1])", false) {
-					okPhi = false
-				}
-			}
-		} else if okPhi {
-			okPhi = false
-		}
-		c.check(okPhi, "TERM-EVAL", "complement => ReverseComplement of the whole concatenation", ev.Pos(), "result = RC(buffer) iff location.Complement else buffer", "the result is not {ReverseComplement(concatenation) iff location.Complement, else the concatenation}: "+short(rt.String()))
-		if bufS != "" {
-			buf := strings.TrimSuffix(strings.TrimPrefix(bufS, "call[(*bytes.Buffer).String]("), ")")
-			ws := bufWrites(ev, etb, buf)
-			var leafOK, innerOK bool
-			nw := 0
-			for _, wr := range ws {
-				nw++
-				pc := pathCond(etb, ev.Blocks[0], wr.call.Block())
-				noSubs := "binop[==](call[builtin:len](field[SubLocations](param[1])), const[0])"
-				a := wr.arg.String()
-				if pc.implies(noSubs, false) {
-					leafOK = a == "slice("+parent+", field[Start](param[1]), field[End](param[1]))"
-				} else if pc.implies(noSubs, true) {
-					innerOK = a == "call[poly.getFeatureSequence](param[0], each(field[SubLocations](param[1])))" && inLoop(wr.call.Block())
-				}
-			}
-			c.check(leafOK && nw == 2, "COORD", "evaluator: leaf = parent[Start:End]", ev.Pos(), "no offset on either bound", "the leaf case does not write exactly parent[location.Start:location.End]")
-			c.check(innerOK && nw == 2, "TERM-EVAL", "inner node = concatenation over all SubLocations in order", ev.Pos(), "range over SubLocations, recursive result appended per operand, same feature", "the inner case does not append getFeatureSequence(feature, sub) for every sub-location in order")
-		}
-	}
-	checkReturnIs(c, "TERM-EVAL", "GetSequence starts at feature.SequenceLocation", w.method("", "Feature", "GetSequence"), 0, "call[poly.getFeatureSequence](param[0], field[SequenceLocation](param[0]))", "GetSequence() = getFeatureSequence(feature, feature.SequenceLocation)")
 	checkRCShape(c, "TERM-EVAL")
 	// ---------------- printer
-	ptb := newTB(bl)
-	prt, _, okP := singleReturnTerm(bl, 0)
-	if !okP {
-		c.bad("TERM-PRINT", "single return", bl.Pos(), "BuildLocationString has several returns (unrecognised shape)")
-		return
+	checkLocationPrinter(c, bl, pl)
+}
+
+func checkLocationParser(c *Ctx, pl *ssa.Function) {
+	fam := family(pl)
+	type lit struct {
+		role string // "span-start" "span-end" "single"
+		k    int64
+		pos  ssa.Instruction
+		arg  *Term
+		fld  string
 	}
-	ph, isPhi := returnsOf(bl)[0].Results[0].(*ssa.Phi)
-	if !isPhi {
-		c.bad("TERM-PRINT", "three node kinds", bl.Pos(), "the result is not selected among complement/join/leaf forms: "+short(prt.String()))
-		return
+	var lits []lit
+	var stripArgs []*Term
+	for _, f := range fam {
+		c.useFn(f)
+		tb := newDeepTB(f)
+		eachInstr(f, func(i ssa.Instruction) {
+			st, ok := i.(*ssa.Store)
+			if !ok {
+				return
+			}
+			a, p, isLocal := rootAlloc(st.Addr)
+			if !isLocal || len(p) != 1 || tname(deref(a.Type())) != "poly.Location" || (p[0] != ".Start" && p[0] != ".End") {
+				return
+			}
+			v := tb.T(st.Val)
+			b, k := v.linear()
+			if b == nil || !(b.Op == "extract" && b.Name == "0" && b.Args[0].isCall("strconv.Atoi")) {
+				return // not a literal built from text (copies, zero values)
+			}
+			arg := b.Args[0].Args[0]
+			role := ""
+			switch {
+			case arg.contains(func(x *Term) bool {
+				return x.Op == "index" && x.Args[0].isCall("strings.Split") && x.Args[0].Args[1].isConst(`".."`) && x.Args[1].isConst("0")
+			}):
+				role = "span-start"
+				stripArgs = append(stripArgs, arg)
+			case arg.contains(func(x *Term) bool {
+				return x.Op == "index" && x.Args[0].isCall("strings.Split") && x.Args[0].Args[1].isConst(`".."`) && x.Args[1].isConst("1")
+			}):
+				role = "span-end"
+				stripArgs = append(stripArgs, arg)
+			case arg.contains(func(x *Term) bool { return x.isParam(0) }) && !arg.contains(func(x *Term) bool { return x.isCall("strings.Split") }):
+				role = "single"
+			}
+			if role != "" {
+				lits = append(lits, lit{role, k, st, arg, strings.TrimPrefix(p[0], ".")})
+			}
+		})
 	}
-	var compOK, joinOK, leafSeen bool
-	var leafForms []*Term
-	var printerKW []string
-	var collectLeaves func(v ssa.Value, pc *Cond)
-	compAtom, joinA := "field[Complement](param[0])", "field[Join](param[0])"
-	collectLeaves = func(v ssa.Value, pc *Cond) {
-		if p, ok := v.(*ssa.Phi); ok {
+	seen := map[string]bool{}
+	for _, l := range lits {
+		var wantK int64
+		var key, good, bad string
+		switch {
+		case l.role == "span-start" && l.fld == "Start":
+			wantK, key, good = -1, "parser:span n..m -> Start=n-1", "Start = atoi(first number) - 1"
+		case l.role == "span-end" && l.fld == "End":
+			wantK, key, good = 0, "parser:span n..m -> End=m", "End = atoi(second number)"
+		case l.role == "single" && l.fld == "Start":
+			wantK, key, good = -1, "parser:single base n -> Start=n-1", "Start = n - 1"
+		case l.role == "single" && l.fld == "End":
+			wantK, key, good = 0, "parser:single base n -> End=n", "End = n"
+		default:
+			c.bad("COORD", "parser:"+l.role+" stored into "+l.fld, l.pos.Pos(), "the "+l.role+" number of the location text is stored into "+l.fld)
+			continue
+		}
+		bad = fmt.Sprintf("%s is atoi(text)%+d; want atoi(text)%+d (0-based half-open from 1-based inclusive)", l.fld, l.k, wantK)
+		if l.role == "single" && l.fld == "Start" && l.k == 0 {
+			bad += ": with Start = End = n the feature sequence parent[n:n] is empty"
+		}
+		seen[key] = true
+		c.check(l.k == wantK, "COORD", key, l.pos.Pos(), good, bad)
+	}
+	for _, k := range []string{"parser:span n..m -> Start=n-1", "parser:span n..m -> End=m", "parser:single base n -> Start=n-1", "parser:single base n -> End=n"} {
+		if !seen[k] {
+			c.undecided("COORD", k, pl.Pos(), "no Location literal built from that part of the text was recognised")
+		}
+	}
+	// TABLE: markers stripped before Atoi
+	if len(stripArgs) == 0 {
+		c.undecided("TABLE", "markers stripped before Atoi are exactly < and >", pl.Pos(), "no span literal recognised")
+	} else {
+		del, found := "", false
+		for _, a := range stripArgs {
+			if d, ok := stripTable(a); ok {
+				del, found = d, true
+			}
+		}
+		if !found {
+			c.undecided("TABLE", "markers stripped before Atoi are exactly < and >", pl.Pos(), "the operation that removes the partial markers was not recognised")
+		} else {
+			c.check(del == "<>", "TABLE", "markers stripped before Atoi are exactly < and >", pl.Pos(), "exactly '<' and '>' are removed", fmt.Sprintf("the characters removed before Atoi are %q; want exactly \"<>\"", del))
+		}
+	}
+	// flags
+	tb := newDeepTB(pl)
+	for _, fl := range []struct{ field, mark, other string }{{"FivePrimePartial", "<", ">"}, {"ThreePrimePartial", ">", "<"}} {
+		stt := unknown
+		why := "no store of " + fl.field + " = true under a recognised test found"
+		var pos = pl.Pos()
+		for _, f := range fam {
+			ftb := tb
+			if f != pl {
+				ftb = newDeepTB(f)
+			}
+			eachInstr(f, func(i ssa.Instruction) {
+				st, ok := i.(*ssa.Store)
+				if !ok {
+					return
+				}
+				_, p, isLocal := rootAlloc(st.Addr)
+				if !isLocal || len(p) != 1 || p[0] != "."+fl.field {
+					return
+				}
+				v := ftb.T(st.Val)
+				var tests []*Term
+				if v.isConst("true") {
+					for _, a := range pathCond(ftb, f.Blocks[0], st.Block()).atoms() {
+						if !a.Neg && !a.Disj {
+							tests = append(tests, a.Atom)
+						}
+					}
+				} else {
+					tests = append(tests, v)
+				}
+				for _, t := range tests {
+					if t.Op == "call" && (t.Name == "strings.Contains" || t.Name == "strings.ContainsAny" || t.Name == "strings.ContainsRune" || t.Name == "strings.HasPrefix" || t.Name == "strings.HasSuffix") && len(t.Args) == 2 {
+						m, isS := t.Args[1].constStr()
+						if !isS {
+							if k, isI := t.Args[1].constInt(); isI {
+								m, isS = string(rune(k)), true
+							}
+						}
+						if isS && m == fl.mark {
+							stt, pos = holds, st.Pos()
+						} else if isS && m == fl.other && stt != holds {
+							stt, pos = broken, st.Pos()
+							why = fl.field + " is set when the text contains " + fmt.Sprintf("%q", m) + "; the marker for it is " + fmt.Sprintf("%q", fl.mark)
+						}
+					}
+				}
+			})
+		}
+		c.judge(stt, "TABLE", fl.field+" iff the text contains "+fl.mark, pos, "set under a test for "+fmt.Sprintf("%q", fl.mark), why)
+	}
+	// ARITY
+	var joinStores int
+	for _, f := range fam {
+		ftb := newDeepTB(f)
+		eachInstr(f, func(i ssa.Instruction) {
+			st, ok := i.(*ssa.Store)
+			if !ok {
+				return
+			}
+			a, p, isLocal := rootAlloc(st.Addr)
+			if !isLocal || len(p) != 1 || p[0] != ".SubLocations" || tname(deref(a.Type())) != "poly.Location" {
+				return
+			}
+			pc := pathCond(ftb, f.Blocks[0], st.Block())
+			isJoin := false
+			for _, at := range pc.atoms() {
+				if at.Neg || at.Disj {
+					continue
+				}
+				if at.Atom.isBin("==") && (at.Atom.Args[0].isConst(`"join"`) || at.Atom.Args[1].isConst(`"join"`)) {
+					isJoin = true
+				}
+				if at.Atom.Op == "call" && at.Atom.Name == "strings.HasPrefix" && at.Atom.Args[1].isConst(`"join("`) {
+					isJoin = true
+				}
+			}
+			if !isJoin {
+				return
+			}
+			joinStores++
+			v := ftb.T(st.Val)
+			// how many operands does this site append at once, and is it in a loop?
+			n := 0
+			v.walk(func(x *Term) {
+				if x.Op == "partial" && strings.HasPrefix(x.Name, "[") {
+					n++
+				}
+			})
+			stt := holds
+			if !inLoop(st.Block()) {
+				stt = broken
+				// a recursive descent that parses one operand and recurses on the remainder is also unbounded
+				if v.contains(func(x *Term) bool { return x.Op == "call" && strings.HasSuffix(x.Name, "."+pl.Name()) }) && n <= 1 {
+					stt = unknown
+				}
+			}
+			c.judge(stt, "ARITY", fmt.Sprintf("join operands appended in a loop (%s)", c.W.pos(st.Pos())[strings.LastIndex(c.W.pos(st.Pos()), "/")+1:]), st.Pos(), "operands are appended in a loop over the operand list", fmt.Sprintf("this branch appends a fixed number of operands (%d) outside any loop: joins with more operands, or with a parenthesised operand that is not first, are mis-parsed or panic", n))
+		})
+	}
+	if joinStores == 0 {
+		c.undecided("ARITY", "join case", pl.Pos(), "no SubLocations built under a test for the join keyword found")
+	}
+}
+
+func checkLocationEvaluator(c *Ctx, gsq, ev *ssa.Function) {
+	fam := family(ev)
+	// COORD: slices of the parent sequence
+	nSlice := 0
+	for _, f := range fam {
+		c.useFn(f)
+		tb := newDeepTB(f)
+		eachInstr(f, func(i ssa.Instruction) {
+			sl, ok := i.(*ssa.Slice)
+			if !ok || !isStringType(sl.X.Type()) {
+				return
+			}
+			x := tb.T(sl.X)
+			if !x.contains(func(y *Term) bool { return y.isField("ParentSequence") }) || !x.contains(func(y *Term) bool { return y.isField("Sequence") }) {
+				return
+			}
+			nSlice++
+			lo, hi := tb.T(sl.Low), tb.T(sl.High)
+			lb, lk := lo.linear()
+			hb, hk := hi.linear()
+			stt := unknown
+			why := fmt.Sprintf("parent sliced as [%s : %s]", short(lo.String()), short(hi.String()))
+			if lb != nil && hb != nil && lb.isField("Start") && hb.isField("End") && lb.Args[0].String() == hb.Args[0].String() {
+				if lk == 0 && hk == 0 {
+					stt = holds
+				} else {
+					stt = broken
+					why = fmt.Sprintf("parent sliced as [Start%+d : End%+d]; the in-memory convention is 0-based half-open [Start:End]", lk, hk)
+				}
+			} else if lb != nil && hb != nil && lb.isField("End") && hb.isField("Start") {
+				stt, why = broken, "parent sliced as [End:Start]"
+			}
+			c.judge(stt, "COORD", "evaluator: leaf = parent[Start:End]", sl.Pos(), "no offset on either bound", why)
+		})
+	}
+	if nSlice == 0 {
+		c.undecided("COORD", "evaluator: leaf = parent[Start:End]", ev.Pos(), "no slice of feature.ParentSequence.Sequence found in the evaluator")
+	}
+	// recursion over SubLocations
+	nRec := 0
+	famSet := map[*ssa.Function]bool{}
+	for _, f := range fam {
+		famSet[f] = true
+	}
+	for _, f := range fam {
+		tb := newTB(f)
+		eachInstr(f, func(i ssa.Instruction) {
+			cl, ok := i.(*ssa.Call)
+			if !ok {
+				return
+			}
+			g := cl.Call.StaticCallee()
+			if g == nil || !famSet[g] || len(cl.Call.Args) < 2 {
+				return
+			}
+			// a call that passes a Location derived from SubLocations
+			var locArg *Term
+			for _, a := range cl.Call.Args {
+				if strings.HasSuffix(tname(a.Type()), "poly.Location") {
+					locArg = tb.T(a)
+				}
+			}
+			if locArg == nil || !locArg.contains(func(x *Term) bool { return x.isField("SubLocations") }) {
+				return
+			}
+			nRec++
+			stt := unknown
+			why := "recursive call evaluates " + short(locArg.String())
+			switch {
+			case (locArg.Op == "each") && locArg.Args[0].isField("SubLocations") && inLoop(cl.Block()):
+				stt = holds
+			case locArg.Op == "index" && locArg.Args[0].isField("SubLocations"):
+				if _, isC := locArg.Args[1].constInt(); isC {
+					stt, why = broken, "the evaluator visits sub-locations at fixed indices: joins with more operands lose bases"
+				}
+			}
+			c.judge(stt, "TERM-EVAL", "inner node = every sub-location in order", cl.Pos(), "range over SubLocations, one recursive evaluation per operand", why)
+		})
+	}
+	if nRec == 0 {
+		c.undecided("TERM-EVAL", "inner node = every sub-location in order", ev.Pos(), "no recursive evaluation of sub-locations found")
+	}
+	// complement: result alternatives of the evaluator
+	tb := newDeepTB(ev)
+	type alt struct {
+		t    *Term
+		cond *Cond
+	}
+	var alts []alt
+	var expand func(v ssa.Value, pc *Cond, depth int)
+	expand = func(v ssa.Value, pc *Cond, depth int) {
+		if p, ok := v.(*ssa.Phi); ok && depth < 3 && !isCyclicPhi(p) {
 			for i, e := range p.Edges {
-				collectLeaves(e, pathCond(ptb, bl.Blocks[0], p.Block().Preds[i]))
+				expand(e, pathCond(tb, ev.Blocks[0], p.Block().Preds[i]), depth+1)
 			}
 			return
 		}
-		t := ptb.T(v)
-		parts := t.sumTerms()
-		switch {
-		case pc.implies(compAtom, false):
-			if s, ok := parts[0].constStr(); ok {
-				printerKW = append(printerKW, s)
+		alts = append(alts, alt{tb.T(v), pc})
+	}
+	for _, r := range returnsOf(ev) {
+		expand(r.Results[0], pathCond(tb, ev.Blocks[0], r.Block()), 0)
+	}
+	compAtom := func(pc *Cond) (pos, neg bool) {
+		for _, a := range pc.atoms() {
+			if a.Disj {
+				continue
 			}
-			compOK = len(parts) == 3 && parts[0].isConst(`"complement("`) && parts[2].isConst(`")"`) &&
-				parts[1].String() == "call[poly/io/genbank.BuildLocationString](anyof(param[0], partial[.Complement](const[false])))"
-		case pc.implies(joinA, false):
-			// TrimSuffix(acc, ",") + ")"
-			if len(parts) == 2 && parts[1].isConst(`")"`) && parts[0].isCall("strings.TrimSuffix") && parts[0].Args[1].isConst(`","`) {
-				acc := parts[0].Args[0]
-				var initOK, stepOK bool
-				for _, l := range phiLeaves(acc) {
-					if s, ok := l.constStr(); ok {
-						printerKW = append(printerKW, s)
-						initOK = s == "join("
-					} else {
-						sp := l.sumTerms()
-						// rec + (BLS(each) + ",")
-						n := len(sp)
-						stepOK = n >= 2 && sp[n-1].isConst(`","`) && sp[n-2].String() == "call[poly/io/genbank.BuildLocationString](each(field[SubLocations](param[0])))"
-					}
+			if a.Atom.isField("Complement") {
+				if a.Neg {
+					neg = true
+				} else {
+					pos = true
 				}
-				joinOK = initOK && stepOK
 			}
-		default:
-			leafSeen = true
-			leafForms = append(leafForms, t)
+		}
+		return
+	}
+	stt := unknown
+	why := "the result is not selected between a concatenation and its reverse complement by location.Complement"
+	var plain, rcd []alt
+	for _, a := range alts {
+		if a.t.isCall("poly/transform.ReverseComplement") {
+			rcd = append(rcd, a)
+		} else {
+			plain = append(plain, a)
 		}
 	}
-	collectLeaves(ph, &Cond{Op: "true"})
-	c.check(compOK, "TERM-PRINT", "complement => complement(+rec+) with only Complement cleared", bl.Pos(), "the operand is printed from the same location (all other flags and coordinates kept)", "the complement form is not \"complement(\" + BuildLocationString(location with only Complement cleared) + \")\": partial markers or operands of the inner location are lost")
-	c.check(joinOK, "TERM-PRINT", "join => join(+rec,...+) over all SubLocations", bl.Pos(), "every sub-location printed in order, separated by ','", "the join form is not \"join(\" + operands joined by \",\" + \")\" over all sub-locations")
-	okKW := parserKW["join"] && parserKW["complement"]
-	for _, k := range printerKW {
-		if !(k == "join(" || k == "complement(") {
-			okKW = false
+	if len(rcd) >= 1 && len(plain) >= 1 {
+		stt = holds
+		for _, a := range rcd {
+			pos, neg := compAtom(a.cond)
+			if neg && !pos {
+				stt, why = broken, "ReverseComplement is applied on the branch where location.Complement is false"
+			} else if !pos {
+				stt, why = unknown, "the branch applying ReverseComplement is not visibly the Complement branch"
+			}
+			// it must wrap the same concatenation the plain branch returns
+			same := false
+			for _, p := range plain {
+				if a.t.Args[0].String() == p.t.String() {
+					same = true
+				}
+			}
+			if !same && stt == holds {
+				stt, why = unknown, "ReverseComplement wraps "+short(a.t.Args[0].String())+", which is not the value returned on the other branch"
+			}
+		}
+		for _, p := range plain {
+			pos, neg := compAtom(p.cond)
+			if pos && !neg && stt == holds {
+				// a return of the un-complemented value on the Complement branch (e.g. a special case)
+				if p.t.Op == "const" {
+					continue
+				}
+				stt, why = broken, "on the Complement branch a value is returned without ReverseComplement: "+short(p.t.String())
+			}
 		}
 	}
-	c.check(okKW && len(printerKW) == 2, "TERM-PRINT", "keyword tokens agree with the parser", bl.Pos(), "printer writes join( / complement(, parser dispatches on join / complement", fmt.Sprintf("printer keywords %v vs parser keywords %v", printerKW, parserKW))
-	// leaf forms: Itoa(Start+1) .. Itoa(End) with markers
-	st := "call[strconv.Itoa](binop[+](const[1], field[Start](param[0])))"
-	en := "call[strconv.Itoa](field[End](param[0]))"
-	coordOK, fiveOK, threeOK := leafSeen, true, true
-	var threeWhy string
-	for _, lf := range leafForms {
-		var flat []string
-		for _, p := range flattenConcat(lf) {
-			flat = append(flat, p)
+	c.judge(stt, "TERM-EVAL", "complement => ReverseComplement of the whole concatenation", ev.Pos(), "result = RC(concatenation) exactly on the location.Complement branch", why)
+	// GetSequence
+	gtb := newTB(gsq)
+	gtb.NoInline = true
+	ra := resultAlts(gtb, gsq, 0)
+	if len(ra) == 1 && ra[0].T.Op == "call" && len(ra[0].T.Args) >= 2 {
+		t := ra[0].T
+		okG := t.Args[0].isParam(0) && t.Args[1].String() == "field[SequenceLocation](param[0])"
+		st2 := holds
+		if !okG {
+			st2 = unknown
+			if t.Args[1].Op == "field" && t.Args[1].Name != "SequenceLocation" {
+				st2 = broken
+			}
 		}
-		joined := strings.Join(flat, " ")
-		core := st + ` const[".."] ` + en
-		if !strings.Contains(strings.ReplaceAll(strings.ReplaceAll(joined, ` const[">"]`, ""), `const["<"] `, ""), core) {
-			coordOK = false
-		}
-		if strings.Contains(joined, `const["<"]`) && !strings.Contains(joined, `const["<"] `+st) {
-			fiveOK = false
-		}
-		if strings.Contains(joined, `const[">"]`) && !strings.Contains(joined, `const[">"] `+en) {
-			threeOK = false
-			threeWhy = "a 3'-partial leaf is printed as " + strings.ReplaceAll(strings.ReplaceAll(strings.ReplaceAll(joined, st, "start"), en, "end"), "const", "")
-		}
+		c.judge(st2, "TERM-EVAL", "GetSequence starts at feature.SequenceLocation", gsq.Pos(), "GetSequence() evaluates feature.SequenceLocation of the same feature", "GetSequence evaluates "+short(t.String()))
+	} else {
+		c.undecided("TERM-EVAL", "GetSequence starts at feature.SequenceLocation", gsq.Pos(), "GetSequence is not a single call of the evaluator")
 	}
-	c.check(coordOK, "COORD", "printer: Itoa(Start+1)..Itoa(End)", bl.Pos(), "1-based inclusive on output", "the leaf form is not Itoa(Start+1) + \"..\" + Itoa(End)")
-	c.check(fiveOK, "TERM-PRINT", "'<' immediately before the start coordinate", bl.Pos(), "<n..m", "the 5' marker is not placed directly before the start coordinate")
-	c.check(threeOK, "TERM-PRINT", "'>' immediately before the end coordinate", bl.Pos(), "n..>m", threeWhy+"; INSDC writes n..>m (the marker precedes the end coordinate), other readers reject n..m>")
 }
 
-// flattenConcat lists the concatenation operands of a string term through phis (each phi alternative
-// expanded in place is not possible in general; this returns the operands of the outermost sum with
-// nested sums flattened, and expands a phi operand into its non-recursive alternatives joined by '|').
-func flattenConcat(t *Term) []string {
-	var out []string
-	for _, p := range t.sumTerms() {
-		if p.Op == "phi" {
-			// alternatives: choose the longest (the one that includes optional markers)
-			best := []string{}
-			for _, a := range p.Args {
-				f := flattenConcat(a)
-				if len(f) > len(best) {
-					best = f
-				}
+func checkLocationPrinter(c *Ctx, bl, pl *ssa.Function) {
+	fam := family(bl)
+	// COORD: every Itoa argument in the printer family
+	nItoa := 0
+	for _, f := range fam {
+		c.useFn(f)
+		tb := newDeepTB(f)
+		eachInstr(f, func(i ssa.Instruction) {
+			cl, ok := i.(*ssa.Call)
+			if !ok {
+				return
 			}
-			out = append(out, best...)
+			n := calleeName(cl)
+			var arg *Term
+			switch n {
+			case "strconv.Itoa":
+				arg = tb.T(cl.Call.Args[0])
+			case "strconv.FormatInt":
+				arg = tb.T(cl.Call.Args[0])
+				if arg.Op == "conv" {
+					arg = arg.Args[0]
+				}
+			default:
+				return
+			}
+			b, k := arg.linear()
+			if b == nil || !(b.isField("Start") || b.isField("End")) {
+				return
+			}
+			nItoa++
+			want := int64(0)
+			if b.isField("Start") {
+				want = 1
+			}
+			c.check(k == want, "COORD", "printer: Itoa("+b.Name+fmt.Sprintf("%+d", want)+")", cl.Pos(), "1-based inclusive on output", fmt.Sprintf("the printer writes %s%+d; INSDC coordinates are Start+1 .. End", b.Name, k))
+		})
+	}
+	if nItoa == 0 {
+		c.undecided("COORD", "printer coordinates", bl.Pos(), "no Itoa of Start/End found in the printer")
+	}
+	// forms
+	tb := newDeepTB(bl)
+	type alt struct {
+		t    *Term
+		cond *Cond
+		v    ssa.Value
+	}
+	var alts []alt
+	var expand func(v ssa.Value, pc *Cond, depth int)
+	expand = func(v ssa.Value, pc *Cond, depth int) {
+		if p, ok := v.(*ssa.Phi); ok && depth < 4 && !isCyclicPhi(p) {
+			for i, e := range p.Edges {
+				expand(e, pathCond(tb, bl.Blocks[0], p.Block().Preds[i]), depth+1)
+			}
+			return
+		}
+		alts = append(alts, alt{tb.T(v), pc, v})
+	}
+	for _, r := range returnsOf(bl) {
+		expand(r.Results[0], pathCond(tb, bl.Blocks[0], r.Block()), 0)
+	}
+	has := func(pc *Cond, field string, neg bool) bool {
+		for _, a := range pc.atoms() {
+			if !a.Disj && a.Atom.isField(field) && a.Neg == neg {
+				return true
+			}
+		}
+		return false
+	}
+	var printerKW []string
+	compSt, joinSt := unknown, unknown
+	compWhy, joinWhy := "no complement form recognised", "no join form recognised"
+	var leafAlts []alt
+	for _, a := range alts {
+		ps, _ := tb.pieces(a.t)
+		switch {
+		case has(a.cond, "Complement", false):
+			if len(ps) == 3 && ps[0].Op == "const" && ps[2].isConst(`")"`) && ps[1].Op == "call" && strings.HasSuffix(ps[1].Name, "."+bl.Name()) {
+				if s, ok := ps[0].constStr(); ok {
+					printerKW = append(printerKW, s)
+				}
+				arg := ps[1].Args[0]
+				// the operand: the same location with only Complement cleared
+				changed := map[string]bool{}
+				arg.walk(func(x *Term) {
+					if x.Op == "partial" {
+						changed[x.Name] = true
+					}
+				})
+				switch {
+				case arg.contains(func(x *Term) bool { return x.isParam(0) }) && len(changed) == 1 && changed[".Complement"]:
+					compSt = holds
+				case arg.contains(func(x *Term) bool { return x.isParam(0) }) && len(changed) > 1:
+					compSt = broken
+					var fl []string
+					for k := range changed {
+						fl = append(fl, k)
+					}
+					sort.Strings(fl)
+					compWhy = "the operand of complement( ) is printed from a location in which more than the Complement flag was changed (" + strings.Join(fl, ",") + "): partial markers or operands of the inner location are lost"
+				case !arg.contains(func(x *Term) bool { return x.isParam(0) }) && len(changed) >= 1:
+					// rebuilt from scratch: every field not copied is lost
+					compSt = broken
+					compWhy = "the operand of complement( ) is rebuilt from selected fields only; flags and operands not copied are lost"
+					if changed[".SubLocations"] && changed[".FivePrimePartial"] && changed[".ThreePrimePartial"] && changed[".Join"] && changed[".Start"] && changed[".End"] {
+						compSt = holds
+					}
+				default:
+					compWhy = "complement operand is " + short(arg.String())
+				}
+			} else if compSt != holds {
+				compWhy = "complement form is " + short(piecesString(ps))
+			}
+		case has(a.cond, "Join", false):
+			ok, kw, why := joinForm(tb, bl, a.t, ps)
+			if kw != "" {
+				printerKW = append(printerKW, kw)
+			}
+			if ok == holds || joinSt != holds {
+				joinSt, joinWhy = ok, why
+			}
+		default:
+			leafAlts = append(leafAlts, a)
+		}
+	}
+	c.judge(compSt, "TERM-PRINT", "complement => complement(+rec+) with only Complement cleared", bl.Pos(), "the operand is printed from the same location (all other flags and coordinates kept)", compWhy)
+	c.judge(joinSt, "TERM-PRINT", "join => join(+rec,...+) over all SubLocations", bl.Pos(), "every sub-location printed in order, separated by ','", joinWhy)
+	// keyword tokens vs parser
+	if pl != nil && len(printerKW) > 0 {
+		ptb := newDeepTB(pl)
+		parserKW := map[string]bool{}
+		for _, f := range family(pl) {
+			ftb := ptb
+			if f != pl {
+				ftb = newDeepTB(f)
+			}
+			eachInstr(f, func(i ssa.Instruction) {
+				if bo, ok := i.(*ssa.BinOp); ok {
+					t := ftb.T(bo)
+					if t.isBin("==") {
+						for k := 0; k < 2; k++ {
+							if s, ok := t.Args[k].constStr(); ok && s != "" {
+								parserKW[s] = true
+							}
+						}
+					}
+				}
+			})
+		}
+		st := holds
+		var bad []string
+		for _, k := range printerKW {
+			base := strings.TrimSuffix(k, "(")
+			if !parserKW[base] && !parserKW[k] {
+				if len(parserKW) > 0 {
+					st = broken
+				} else {
+					st = unknown
+				}
+				bad = append(bad, k)
+			}
+		}
+		c.judge(st, "TERM-PRINT", "keyword tokens agree with the parser", bl.Pos(), fmt.Sprintf("printer writes %v, parser dispatches on the same words", printerKW), fmt.Sprintf("printer keywords %v are not among the words the parser dispatches on", bad))
+	} else {
+		c.undecided("TERM-PRINT", "keyword tokens agree with the parser", bl.Pos(), "printer keywords not recognised")
+	}
+	// leaf: marker placement
+	fiveSt, threeSt := unknown, unknown
+	threeWhy, fiveWhy := "no leaf form with a '>' marker recognised", "no leaf form with a '<' marker recognised"
+	for _, a := range leafAlts {
+		flat := flattenLeaf(tb, a.t)
+		if flat == nil {
 			continue
 		}
-		out = append(out, p.String())
+		joined := strings.Join(flat, " ")
+		st := "S"
+		en := "E"
+		if strings.Contains(joined, `"<"`) {
+			if strings.Contains(joined, `"<" `+st) {
+				fiveSt = holds
+			} else {
+				fiveSt, fiveWhy = broken, "a 5'-partial leaf is printed as "+joined+" (S = start, E = end coordinate)"
+			}
+		}
+		if strings.Contains(joined, `">"`) {
+			if strings.Contains(joined, `">" `+en) {
+				if threeSt != broken {
+					threeSt = holds
+				}
+			} else {
+				threeSt, threeWhy = broken, "a 3'-partial leaf is printed as "+joined+" (S = start, E = end coordinate)"
+			}
+		}
+	}
+	c.judge(fiveSt, "TERM-PRINT", "'<' immediately before the start coordinate", bl.Pos(), "<n..m", fiveWhy)
+	c.judge(threeSt, "TERM-PRINT", "'>' immediately before the end coordinate", bl.Pos(), "n..>m", threeWhy+"; INSDC writes n..>m (the marker precedes the end coordinate), other readers reject n..m>")
+}
+
+// joinForm recognises the two usual ways of writing the join form.
+func joinForm(tb *TermBuilder, bl *ssa.Function, t *Term, ps []*Term) (int, string, string) {
+	rec := func(x *Term) bool {
+		return x.Op == "call" && strings.HasSuffix(x.Name, "."+bl.Name()) && len(x.Args) == 1 && x.Args[0].Op == "each" && x.Args[0].Args[0].String() == "field[SubLocations](param[0])"
+	}
+	kw := ""
+	// (a) "join(" + strings.Join(collect(rec), ",") + ")"
+	if len(ps) == 3 && ps[2].isConst(`")"`) && ps[1].isCall("strings.Join") {
+		kw, _ = ps[0].constStr()
+		j := ps[1]
+		if j.Args[1].isConst(`","`) && j.Args[0].Op == "collect" && rec(j.Args[0].Args[0]) {
+			return holds, kw, ""
+		}
+		if j.Args[0].Op == "collect" && rec(j.Args[0].Args[0]) {
+			return broken, kw, "operands are separated by " + j.Args[1].String() + ", the parser splits on \",\""
+		}
+		return unknown, kw, "join operands are " + short(j.String())
+	}
+	// (b) accumulate rec + "," then trim the last "," and add ")"
+	if len(ps) == 2 && ps[1].isConst(`")"`) && ps[0].isCall("strings.TrimSuffix") && ps[0].Args[1].isConst(`","`) {
+		acc := ps[0].Args[0]
+		var initOK, stepOK bool
+		for _, l := range phiLeaves(acc) {
+			if s, ok := l.constStr(); ok {
+				kw = s
+				initOK = true
+			} else {
+				sp := l.sumTerms()
+				n := len(sp)
+				stepOK = n >= 2 && sp[n-1].isConst(`","`) && rec(sp[n-2])
+			}
+		}
+		if initOK && stepOK {
+			return holds, kw, ""
+		}
+		return unknown, kw, "join accumulation not recognised"
+	}
+	return unknown, kw, "join form is " + short(piecesString(ps))
+}
+
+// flattenLeaf renders a leaf form as a sequence of tokens: "<" ">" ".." S E, choosing for optional
+// parts (phis) the alternative that includes the markers. Returns nil if other pieces occur.
+func flattenLeaf(tb *TermBuilder, t *Term) []string {
+	var out []string
+	okAll := true
+	var walk func(x *Term)
+	walk = func(x *Term) {
+		ps, _ := tb.pieces(x)
+		if len(ps) == 1 && ps[0] == x {
+			switch {
+			case x.Op == "const":
+				s, _ := x.constStr()
+				if s != "" {
+					out = append(out, fmt.Sprintf("%q", s))
+				}
+			case x.isCall("strconv.Itoa"):
+				b, _ := x.Args[0].linear()
+				if b != nil && b.isField("Start") {
+					out = append(out, "S")
+				} else if b != nil && b.isField("End") {
+					out = append(out, "E")
+				} else {
+					okAll = false
+				}
+			case x.Op == "phi" && !x.Cyc:
+				// choose the longest alternative (the one carrying the optional marker)
+				var best *Term
+				bl := -1
+				for _, a := range x.Args {
+					if n := termSize(a); n > bl {
+						best, bl = a, n
+					}
+				}
+				if best != nil {
+					walk(best)
+				}
+			default:
+				okAll = false
+			}
+			return
+		}
+		for _, p := range ps {
+			walk(p)
+		}
+	}
+	walk(t)
+	if !okAll {
+		return nil
 	}
 	return out
 }
